@@ -85,6 +85,17 @@ def generate(ctx):
             names = [nm for nm, _ in schema]
             nf, labels, label_kind = fo.make_frame(rng, inp)
             rows = fo.rows_rm(inp["ca"])
+            if i % 9 == 4 and len(rows) >= 2:
+                # a frame that has been sorted before and whose rows were then replaced in place by tables of other lengths
+                # (the content below is the content AFTER that): what an earlier sort may have remembered must not matter
+                attempt(lambda: nf.sort_values(f"n.{names[0]}"))
+                arr_live = nf["n"].array
+                j0, j1 = 0, len(rows) - 1
+                t0 = {nm: [gen.gen_value(rng, t, 0.0) for _ in range(len(rows[j1] or []) + 1)] for nm, t in schema}
+                t0 = {nm: [v if not (isinstance(v, float) and v != v) else 1.5 for v in vs] for nm, vs in t0.items()}
+                arr_live[j0] = t0
+                arr_live[j1] = None
+                rows = fo.rows_rm(nf["n"].array.chunked_array)
             import math as _m
             zs = [{_m.copysign(1.0, rec[j]) for r in rows if r for rec in r if isinstance(rec[j], float) and rec[j] == 0.0}
                   for j in range(len(names))]
